@@ -454,13 +454,169 @@ def ann_near(rng, v, depth, noise=0.12):
   raise ValueError(v)
 
 
-def gen_pair(rng, adepth=2, vdepth=2):
-  v = gen_val(rng, rng.choice([0, 1, 1, 2, 2, 2][:2 * vdepth + 2]) if vdepth else 0)
-  if rng.random() < 0.8:
-    a = ann_near(rng, v, adepth)
-  else:
-    a = gen_ann(rng, adepth)
-  return a, v
+def in_f2_val(v):
+  """value side of fragment F2 (Lean: `Val.inF2`): no `frozenset(...)` call anywhere inside a *set display*
+  (convert.build_set pastes the element bindings with their original origins; a later call moves to a new CFG node
+  and thereby hides the earlier elements — known finding c02-set-display-hidden-elements)"""
+  for x in sub_vals(v):
+    if x[0] == "set" and any(y[0] == "fset" for e in x[1] for y in sub_vals(e)):
+      return False
+  return True
+
+
+def gen_member(rng, a, mros, depth, need_hashable=False):
+  """a value that inhabits `a` (None if none can be built within the constraints)"""
+  k = a[0]
+  def many(n_choices=(0, 1, 1, 2, 2, 3), **kw):
+    out = []
+    for _ in range(rng.choice(n_choices)):
+      x = gen_member(rng, a[1], mros, depth - 1, **kw)
+      if x is None:
+        return out
+      out.append(x)
+    return out
+  if k in ("object", "any"):
+    return gen_val(rng, max(depth, 0), need_hashable)
+  if k == "int":
+    return rng.choice([("int", rng.choice([0, 1, 7])), ("int", 7), ("bool", rng.random() < 0.5)])
+  if k == "float":
+    return rng.choice([("float", rng.choice([0, 2])), ("int", 1), ("bool", True)])
+  if k == "complex":
+    return rng.choice([("complex", rng.choice([0, 1])), ("float", 0), ("int", 0), ("bool", False)])
+  if k == "str":
+    return ("str", rng.choice(["", "ab"]))
+  if k == "bytes":
+    return ("bytes", rng.choice(["", "ab"]))
+  if k == "bool":
+    return ("bool", rng.random() < 0.5)
+  if k == "none":
+    return ("none",)
+  if k == "callable":
+    return rng.choice([("func", rng.randrange(3)), ("clsobj", rng.randrange(NCLS)), ("bclsobj", rng.choice(BUILTIN_CLSOBJ))])
+  if k == "typeany":
+    return rng.choice([("clsobj", rng.randrange(NCLS)), ("bclsobj", rng.choice(BUILTIN_CLSOBJ))])
+  if k in ("cls", "typec"):
+    subs = [c for c in range(len(mros)) if a[1] in mros[c]]
+    return ("inst" if k == "cls" else "clsobj", rng.choice(subs))
+  if k == "opt":
+    return ("none",) if rng.random() < 0.4 else gen_member(rng, a[1], mros, depth, need_hashable)
+  if k == "union":
+    return gen_member(rng, rng.choice(a[1]), mros, depth, need_hashable)
+  if depth <= 0:
+    empties = {"list": ("list", []), "set": ("set", []), "fset": ("fset", []), "tuphom": ("tuple", []),
+               "seq": ("tuple", []), "iter": ("tuple", []), "coll": ("tuple", []), "dict": ("dict", []), "map": ("dict", [])}
+    if k == "tup":
+      return ("tuple", []) if not a[1] else None
+    v = empties[k]
+    return v if (hashable(v) or not need_hashable) else None
+  if k == "list":
+    return None if need_hashable else ("list", many())
+  if k == "set":
+    return None if need_hashable else ("set", many(need_hashable=True))
+  if k == "fset":
+    return ("fset", many(need_hashable=True))
+  if k == "tuphom":
+    return ("tuple", many(need_hashable=need_hashable))
+  if k == "tup":
+    xs = [gen_member(rng, o, mros, depth - 1, need_hashable) for o in a[1]]
+    return None if any(x is None for x in xs) else ("tuple", xs)
+  if k in ("seq", "iter", "coll"):
+    kinds = ["tuple", "tuple"] if need_hashable else ["list", "list", "tuple", "tuple"]
+    if k != "seq":
+      kinds += ["fset"] if need_hashable else ["set", "fset", "dictkeys"]
+    kind = rng.choice(kinds)
+    if kind == "dictkeys":
+      ks = many(need_hashable=True)
+      return ("dict", [(x, gen_val(rng, 0)) for x in ks])
+    if kind in ("set", "fset"):
+      return (kind, many(need_hashable=True))
+    return (kind, many(need_hashable=need_hashable))
+  if k in ("dict", "map"):
+    if need_hashable:
+      return None
+    out = []
+    for _ in range(rng.choice([0, 1, 1, 2, 2, 3])):
+      kk = gen_member(rng, a[1], mros, depth - 1, True)
+      vv = gen_member(rng, a[2], mros, depth - 1)
+      if kk is None or vv is None:
+        break
+      out.append((kk, vv))
+    return ("dict", out)
+  raise ValueError(a)
+
+
+def positions(v, path=()):
+  yield path
+  k = v[0]
+  if k in ("list", "tuple", "set", "fset"):
+    for i, x in enumerate(v[1]):
+      yield from positions(x, path + (i,))
+  elif k == "dict":
+    for i, (a, b) in enumerate(v[1]):
+      yield from positions(a, path + ((i, 0),))
+      yield from positions(b, path + ((i, 1),))
+
+
+def replace_at(v, path, f):
+  """value with the sub-value at `path` replaced by f(sub-value, must_be_hashable)"""
+  def go(v, path, hashable_ctx):
+    if not path:
+      return f(v, hashable_ctx)
+    k, p = v[0], path[0]
+    if k == "dict":
+      i, j = p
+      kv = list(v[1][i])
+      kv[j] = go(kv[j], path[1:], hashable_ctx or j == 0)
+      return (k, list(v[1][:i]) + [tuple(kv)] + list(v[1][i + 1:]))
+    xs = list(v[1])
+    xs[p] = go(xs[p], path[1:], hashable_ctx or k in ("set", "fset"))
+    return (k, xs)
+  return go(v, path, False)
+
+
+def inject_fault(rng, v):
+  """one local change somewhere in the value: another scalar, a container of another kind, one element more/less"""
+  path = rng.choice(list(positions(v)))
+  def f(x, hctx):
+    r = rng.random()
+    k = x[0]
+    if k in ("list", "tuple", "set", "fset") and r < 0.5:
+      if r < 0.2 and x[1]:
+        i = rng.randrange(len(x[1]))
+        return (k, list(x[1][:i]) + list(x[1][i + 1:]))                  # one element less
+      if r < 0.35:
+        return (k, list(x[1]) + [gen_val(rng, 0, hctx or k in ("set", "fset"))])   # one element more
+      kinds = ["tuple", "fset"] if hctx else ["list", "tuple", "set", "fset"]
+      k2 = rng.choice([q for q in kinds if q != k] or kinds)
+      if k2 in ("set", "fset") and not all(hashable(e) for e in x[1]):
+        k2 = "tuple" if hctx else "list"
+      return (k2, list(x[1]))                                            # same elements, another container
+    return gen_val(rng, 0 if r < 0.85 else 1, hctx)                     # an unrelated (mostly scalar) value
+  return replace_at(v, path, f)
+
+
+def gen_pair(rng, mros, adepth=2, vdepth=2):
+  """one (annotation, value) pair: 40 % a member built from the annotation, 35 % such a member with one injected
+  fault, 25 % value first and an annotation derived from its shape (with perturbations)"""
+  for _ in range(50):
+    r = rng.random()
+    if r < 0.75:
+      a = gen_ann(rng, adepth)
+      v = gen_member(rng, a, mros, vdepth)
+      if v is None:
+        continue
+      if r >= 0.4:
+        v = inject_fault(rng, v)
+    else:
+      v = gen_val(rng, rng.choice([0, 1, 1, 2, 2, 2]))
+      a = ann_near(rng, v, adepth) if rng.random() < 0.8 else gen_ann(rng, adepth)
+    if val_depth(v) <= vdepth and py_distinct(v) and in_f2_val(v):
+      try:
+        eval(val_py(v), {"K%d" % i: type("K%d" % i, (), {}) for i in range(NCLS)} | {"fn0": len})
+      except TypeError:      # unhashable key after a fault injection
+        continue
+      return a, v
+  return ("int",), ("int", 0)
 
 
 # ----------------------------------------------------------------------------------------------
@@ -542,7 +698,7 @@ def run_real(jobs, procs=16):
 # ----------------------------------------------------------------------------------------------
 # the Lean model through its driver
 # ----------------------------------------------------------------------------------------------
-FIELDS = ("arg", "ret", "asg", "member", "inF2", "guard", "pyDistinct", "singleView")
+FIELDS = ("arg", "ret", "asg", "member", "inF2", "guard", "pyDistinct", "singleView", "valInF2")
 
 
 def model_predict(drv, batches):
@@ -644,23 +800,43 @@ def batches_of(pairs, rng, size=20):
 def correspond(res, rng, tier):
   t0 = time.time()
   drv = common.ensure_driver("drv_c02")
-  nrand = 1000 if tier == "quick" else 19500
+  nrand = 1000 if tier == "quick" else 6200
   pairs = exhaustive_atoms()
   n_ex = len(pairs)
   seen = {json.dumps([tojson(a), tojson(v)]) for a, v in pairs}
+  groups = [("exact", b) for b in batches_of(pairs, rng)]
+  # random pairs are generated per module (values are built from the module's own hierarchy); annotations
+  # containing Collection never share a module with the others (the protocol matcher has side effects)
+  plain, coll, n_gen = [], [], 0
+  def flush(buf, mode, hier, force=False):
+    while len(buf) >= 20 or (force and buf):
+      groups.append((mode, (hier[0], hier[1], buf[:20])))
+      del buf[:20]
+  hier = gen_hierarchy(rng)
+  hier_c = gen_hierarchy(rng)
   tries = 0
-  while len(pairs) < n_ex + nrand and tries < 20 * nrand:
+  while n_gen < nrand and tries < 20 * nrand:
     tries += 1
-    a, v = gen_pair(rng)
+    use_c = rng.random() < 0.4
+    a, v = gen_pair(rng, (hier_c if use_c else hier)[1])
+    if has_coll(a) != use_c:
+      continue
     key = json.dumps([tojson(a), tojson(v)])
     if key in seen:
       continue
     seen.add(key)
-    pairs.append((a, v))
-  plain = [p for p in pairs if not has_coll(p[0])]
+    n_gen += 1
+    (coll if use_c else plain).append((a, v))
+    if len(plain) >= 20:
+      flush(plain, "exact", hier)
+      hier = gen_hierarchy(rng)
+    if len(coll) >= 20:
+      flush(coll, "one-sided", hier_c)
+      hier_c = gen_hierarchy(rng)
+  flush(plain, "exact", hier, True)
+  flush(coll, "one-sided", hier_c, True)
+  pairs = [p for _, (_, _, ps) in groups for p in ps]
   coll = [p for p in pairs if has_coll(p[0])]
-  # Collection-containing annotations never share a module with the others (the protocol matcher has side effects)
-  groups = [("exact", b) for b in batches_of(plain, rng)] + [("one-sided", b) for b in batches_of(coll, rng)]
   pred = model_predict(drv, [(mros, ps) for _, (_, mros, ps) in groups])
   real = run_real([(bases, ps, SITES) for _, (bases, _, ps) in groups])
   disagreements = []
@@ -669,7 +845,23 @@ def correspond(res, rng, tier):
            "member_oracle_compared": 0, "ann_depth": {}, "val_depth": {}, "by_site_error": {s: 0 for s in SITES}}
   nontrivial = set()
   samples = []
+  crash_samples = []
+  stats["collection_checks_crashed"] = 0
   for (mode, (bases, mros, ps)), pr, ob in zip(groups, pred, real):
+    if "crash" in ob and mode == "one-sided":
+      # known finding c02-collection-report-crash: pytype can crash while *printing* the error of a failing view
+      # after a structural Collection match.  Re-run every check of the module on its own; checks that still
+      # crash are counted (not compared), the others are compared as usual.
+      verd = real_verdicts(bases, ps, isolate=True)
+      ob = {"obs": {}, "stray": []}
+      for (i, s), e in verd.items():
+        if isinstance(e, str):
+          stats["collection_checks_crashed"] += 1
+          ob["obs"][(i, s)] = [ERR[s]] if pr[i][s] else []      # not compared: take the model's answer
+          if len(crash_samples) < 2:
+            crash_samples.append({"pair": pair_repr(bases, ps[i][0], ps[i][1], s), "exception": e})
+        elif e:
+          ob["obs"][(i, s)] = [ERR[s]]
     if "crash" in ob:
       disagreements.append({"kind": "real-code-crash", "exception": ob["crash"], "source": ob["src"][:6000],
                             "pairs": [[tojson(a), tojson(v)] for a, v in ps], "bases": bases})
@@ -681,13 +873,13 @@ def correspond(res, rng, tier):
     env = runtime_env(bases)
     for i, (a, v) in enumerate(ps):
       m = pr[i]
-      stats["pairs_in_guard"] += m["guard"] and m["pyDistinct"]
+      stats["pairs_in_guard"] += m["guard"] and m["pyDistinct"] and m["valInF2"]
       stats["pairs_member"] += m["member"]
       stats["pairs_multi_view"] += not m["singleView"]
       stats["pairs_not_pyDistinct"] += not m["pyDistinct"]
       stats["ann_depth"][ann_depth(a)] = stats["ann_depth"].get(ann_depth(a), 0) + 1
       stats["val_depth"][val_depth(v)] = stats["val_depth"].get(val_depth(v), 0) + 1
-      if not m["inF2"]:
+      if not (m["inF2"] and m["valInF2"]):
         disagreements.append({"kind": "generator-left-F2", "pair": pair_repr(bases, a, v)})
       # the specification itself against the independent Python oracle on the run-time value
       if m["pyDistinct"]:
@@ -744,6 +936,8 @@ def correspond(res, rng, tier):
                                  pairs_with_Collection=len(coll), modules=len(groups),
                                  k_wall_s=round(time.time() - t0, 1))
   res.add_samples(samples)
+  if crash_samples:
+    res.cov["collection_crash_samples"] = crash_samples
   return disagreements
 
 
@@ -758,10 +952,8 @@ def real_verdicts(bases, pairs, isolate=False):
     outs = run_real(jobs)
     res = {}
     for j, o in enumerate(outs):
-      if "crash" in o:
-        raise RuntimeError(o["crash"])
       i, s = divmod(j, len(SITES))
-      res[(i, SITES[s])] = bool(o["obs"].get((0, SITES[s])))
+      res[(i, SITES[s])] = "crash: " + o["crash"] if "crash" in o else bool(o["obs"].get((0, SITES[s])))
     return res
   out = run_real([(bases, pairs, SITES)])[0]
   if "crash" in out:
@@ -824,6 +1016,8 @@ def known_region(a, v, site, error, mem, env):
     return "c02-none-matches-bool"
   if has_coll(a):
     return "c02-collection-structural"
+  if not in_f2_val(v) and site != "arg":
+    return "c02-set-display-hidden-elements"
   if site == "arg" and multi_display(v):
     return "c02-arg-any-view"
   if multi_display(v) and any(u[0] == "union" and sum(1 for o in u[1] if not is_flat_ann(o)) >= 2
@@ -840,7 +1034,9 @@ def failing_sites(bases, a, v, env=None, isolate=False):
   out = []
   for s in SITES:
     err = verd[(0, s)]
-    if err == mem:
+    if isinstance(err, str):      # the real code crashed on this check (isolate mode only)
+      out.append((s, err, mem, "c02-collection-report-crash" if has_coll(a) else None))
+    elif err == mem:
       out.append((s, err, mem, known_region(a, v, s, err, mem, env)))
   return out
 
@@ -861,7 +1057,10 @@ def witnesses(res):
       res.violation("witness-crash", {"property": "C02", "kind": "known-finding witness crashes the real code",
                                       "id": e["id"], "exception": repr(exc)})
       continue
-    still = sorted(s for s, _, _, _ in fs if s in w["sites"])
+    if w.get("kind") == "crash":
+      still = sorted(s for s, e, _, _ in fs if s in w["sites"] and isinstance(e, str))
+    else:
+      still = sorted(s for s, e, _, _ in fs if s in w["sites"] and not isinstance(e, str))
     replayed.append({"id": e["id"], "sites_failing": still, "annotation": ann_py(a), "value": val_py(v)})
     if still:
       res.known_lines.append("%s [%s = %s at site(s) %s]" % (e["what"], ann_py(a), val_py(v), ",".join(still)))
@@ -934,28 +1133,36 @@ def search(res, rng, disagreements, pfail):
     for p in d.get("pairs", [])[:20]:
       cands.append((d["bases"], p[0], p[1]))
   # neighbourhood: every atomic pair, then fresh seeded pairs
-  bases0, _ = gen_hierarchy(rng)
+  bases0, mros0 = gen_hierarchy(rng)
   cands += [(bases0, a, v) for a, v in exhaustive_atoms()]
   for _ in range(600 if common.tier() == "quick" else 4000):
-    b, _ = gen_hierarchy(rng) if rng.random() < 0.1 else (bases0, None)
-    a, v = gen_pair(rng)
+    b, m = gen_hierarchy(rng) if rng.random() < 0.1 else (bases0, mros0)
+    a, v = gen_pair(rng, m)
     cands.append((b, a, v))
   # evaluate the oracle on the real code, module-wise
   found, tried = [], 0
   by_bases = {}
   for b, a, v in cands:
-    by_bases.setdefault(json.dumps(b), []).append((a, v))
+    by_bases.setdefault(json.dumps([b, has_coll(a)]), []).append((a, v))
   jobs = []
   for bj, ps in by_bases.items():
-    b = json.loads(bj)
+    b = json.loads(bj)[0]
     for i in range(0, len(ps), 20):
       jobs.append((b, ps[i:i + 20], SITES))
   outs = run_real(jobs)
   for (b, ps, _), o in zip(jobs, outs):
     if "crash" in o:
-      found.append({"kind": "real-code-crash", "exception": o["crash"], "hierarchy": hierarchy_src(b),
-                    "pairs": [pair_repr(b, a, v) for a, v in ps][:20]})
-      continue
+      # find the crashing check(s); a crash on a Collection annotation is the known finding c02-collection-report-crash
+      verd = real_verdicts(b, ps, isolate=True)
+      o = {"obs": {}}
+      for (i, s), e in verd.items():
+        if isinstance(e, str):
+          if not has_coll(ps[i][0]):
+            found.append({"kind": "real-code-crash", "exception": e, "pair": pair_repr(b, ps[i][0], ps[i][1], s),
+                          "program": build_module(b, [ps[i]], (s,))[0]})
+          o["obs"][(i, s)] = None
+        elif e:
+          o["obs"][(i, s)] = [ERR[s]]
     env = runtime_env(b)
     for i, (a, v) in enumerate(ps):
       tried += 1
@@ -964,6 +1171,8 @@ def search(res, rng, disagreements, pfail):
       except Exception:
         continue
       for s in SITES:
+        if (i, s) in o["obs"] and o["obs"][(i, s)] is None:
+          continue
         err = bool(o["obs"].get((i, s)))
         if err == mem and known_region(a, v, s, err, mem, env) is None:
           found.append({"bases": b, "ann": a, "val": v, "site": s, "error": err, "member": mem})
